@@ -307,7 +307,47 @@ def u6(chk, repo, rule="U6"):
         check_identity(chk, rule, "PanelForces.panel_forces", c.where, _out(r, "panel_forces"), want, t, "F = rho Gamma (v x l)")
 
 
+def u8(chk, repo, rule="U8"):
+    """A group that wires subsystem P to subsystem C by explicit connections wires every
+    input of C for which P has an output of the same name."""
+    from ..groups import group_model
+    from ..wiring import _strip, first_comp, level_view
+
+    chk.rule(rule, "explicit wiring is complete: when a group connects outputs of subsystem P to inputs of subsystem C, every remaining input of C that P produces under the same name is connected as well in every option valuation (otherwise the consumer silently works on its default value, e.g. unit panel lengths)", min_decided=8)
+    seen = {}
+    for g in repo.groups():
+        gm = group_model(repo, g)
+        for gr in gm.runs:
+            for owner in gr.owners():
+                lv = level_view(repo, gr, owner)
+                pairs, tg = set(), set()
+                for o, a, b, e in gr.connects:
+                    if o != owner or not a or not b:
+                        continue
+                    a, b = a.replace("[0]", "[i]"), b.replace("[0]", "[i]")
+                    tg.add(b)
+                    if "." in _strip(a) and "." in _strip(b):
+                        pairs.add((first_comp(a), first_comp(b)))
+                for P, C in sorted(pairs):
+                    if P not in lv.names or C not in lv.names or C in lv.unknown_subs or P in lv.unknown_subs:
+                        continue
+                    pouts = {n[len(P) + 1:] for n in lv.names[P][1] if n.startswith(P + ".")}
+                    key = "%s/%s %s -> %s" % (g.name, owner, P, C)
+                    miss = sorted(n[len(C) + 1:] for n in lv.names[C][0] if n.startswith(C + ".") and n not in tg and n[len(C) + 1:] in pouts)
+                    st = seen.setdefault(key, {"bad": None, "n": 0, "where": g.where})
+                    st["n"] += 1
+                    if miss and st["bad"] is None:
+                        st["bad"] = (miss, gr.sigma)
+    for key, st in sorted(seen.items()):
+        if st["bad"]:
+            miss, sg = st["bad"]
+            chk.violation(rule, key, st["where"], "under %s the inputs %s of the consumer exist and the producer has outputs of the same names, but they are not connected although other outputs of the same producer are" % (sig_txt(sg), miss))
+        else:
+            chk.ok(rule, key, st["where"], "all same-named pairs wired in %d valuation(s)" % st["n"])
+
+
 def run(chk, repo, tier):
+    u8(chk, repo)
     u0(chk, repo)
     u1(chk, repo)
     u3(chk, repo)
@@ -316,4 +356,7 @@ def run(chk, repo, tier):
     u6(chk, repo)
     from .c16 import exposure
 
-    exposure(chk, repo, "U7", {"cg": "reference point", "omega": "rotation rate"}, min_decided=4, text="translation law, wiring part: the reference point used by the rotational velocity is the model's cg and the rotation rate is settable: wherever a subsystem of a repository group has an input named cg or omega in some option valuation, the group promotes (or connects) it in that valuation, so that one cg value reaches both the moment and the rotational-velocity components")
+    u7_boundary = {
+        ("CompressibleVLMStates", "self", "vortex_mesh", "alpha"): "VortexMesh has alpha only with ground effect; with the compressible solver that combination fails loudly at set-up (AeroPoint promotes height_agl, which CompressibleVLMStates does not expose), and in the Prandtl-Glauert frame alpha is 0, the default of this input",
+    }
+    exposure(chk, repo, "U7", {"cg": "reference point", "omega": "rotation rate", "alpha": "angle of attack", "beta": "sideslip angle", "v": "speed", "rho": "density", "Mach_number": "Mach number"}, boundary=u7_boundary, min_decided=4, text="translation law, wiring part: the reference point used by the rotational velocity is the model's cg and the rotation rate is settable: wherever a subsystem of a repository group has an input named cg, omega, alpha, beta, v, rho or Mach_number in some option valuation, the group promotes (or connects) it in that valuation, so that one cg value reaches both the moment and the rotational-velocity components")
